@@ -414,7 +414,7 @@ def judge(run, hs, procs=8):
       for clause, arg in rec["fails"]:
         level, what = clause.split(":", 1)
         if what == "duplicate-direct-base":
-          key = "C10:duplicate-direct-base"
+          key = "C10:duplicate-direct-base:" + level
           msg = ("no MRO error for statement %d of hierarchy %s (bases repeat; CPython: "
                  "TypeError duplicate base class) at level %s" % (arg, canon(c), level))
           run.add("dupbase_" + level)
